@@ -611,13 +611,18 @@ int process_patch(const Options& options)
             tmp_out_file.write_entire_contents_to(stdout);
         } else {
             bool write_to_file = !options.dry_run;
+            const bool should_backup = options.save_backup || (!result.all_hunks_applied_perfectly && !result.was_skipped && options.backup_if_mismatch == Options::OptionalBool::Yes);
 
             // Clean up the file if it looks like it was removed.
             // NOTE: we check for file size for the degenerate case that the file is a removal, but has nothing left.
             if (options.remove_empty_files == Options::OptionalBool::Yes && patch.operation == Operation::Delete) {
                 if (tmp_out_file.size() == 0) {
-                    if (!options.dry_run)
-                        remove_file_and_empty_parent_folders(output_file);
+                    if (!options.dry_run) {
+                        if (should_backup)
+                            backup.make_backup_for(output_file);
+                        if (filesystem::exists(output_file))
+                            remove_file_and_empty_parent_folders(output_file);
+                    }
                     write_to_file = false;
                 } else {
                     out << "Not deleting file " << output_file << " as content differs from patch\n";
@@ -626,7 +631,11 @@ int process_patch(const Options& options)
             }
 
             if (write_to_file) {
-                if (options.save_backup || (!result.all_hunks_applied_perfectly && !result.was_skipped && options.backup_if_mismatch == Options::OptionalBool::Yes))
+                // Ensure that parent directories exist if we are adding a file (a backup of it lives there too).
+                if (patch.operation == Operation::Add)
+                    ensure_parent_directories(output_file);
+
+                if (should_backup)
                     backup.make_backup_for(output_file);
                 write_patched_result_to_file(patch, output_file, permission_result, mode, deferred_writer, tmp_out_file);
             }
